@@ -696,6 +696,98 @@ fn make_hist(names: &[&'static str]) -> Hist {
     Hist { names: names.to_vec(), bytes, cumulative, alone }
 }
 
+// ---------------------------------------------------------------------------------------------
+// handler phase: uploads through the shipped router (`POST /api/snapshot/import`) with a data
+// directory, acknowledged and rejected ones mixed, a clean restart after every step
+// ---------------------------------------------------------------------------------------------
+const BOUNDARY: &str = "----c14boundary";
+fn multipart_body(file: &[u8]) -> Vec<u8> {
+    let mut body = Vec::new();
+    body.extend_from_slice(format!("--{BOUNDARY}\r\nContent-Disposition: form-data; name=\"file\"; filename=\"g.sgsnap\"\r\nContent-Type: application/octet-stream\r\n\r\n").as_bytes());
+    body.extend_from_slice(file);
+    body.extend_from_slice(format!("\r\n--{BOUNDARY}--\r\n").as_bytes());
+    body
+}
+/// (name, bytes, is a well-formed snapshot)
+fn uploads() -> Vec<(&'static str, Vec<u8>, bool)> {
+    let mut v = vec![];
+    for (n, spec) in snapshot_specs() {
+        let mut src = GraphStore::new();
+        build(&mut src, &spec, Builder::Api).expect("source builds");
+        v.push((n, export_bytes(&src, None).expect("export"), true));
+    }
+    let b = v[1].1.clone();
+    v.push(("b-cut-in-half", b[..b.len() / 2].to_vec(), false));
+    v.push(("b-last-byte-missing", b[..b.len() - 1].to_vec(), false));
+    v.push(("garbage", b"this is not a snapshot".to_vec(), false));
+    v.push(("empty", vec![], false));
+    v
+}
+fn handler_phase(ctx: &Ctx, max_len: usize, symbols: &[&str]) -> (u64, u64, BTreeMap<String, u64>) {
+    use tower::ServiceExt;
+    let ups = uploads();
+    let rt = tokio::runtime::Builder::new_current_thread().enable_all().build().expect("runtime");
+    let idx: Vec<usize> = symbols.iter().map(|s| ups.iter().position(|u| u.0 == *s).expect("upload name")).collect();
+    let (mut histories, mut steps) = (0u64, 0u64);
+    let mut outcomes: BTreeMap<String, u64> = BTreeMap::new();
+    for len in 1..=max_len {
+        for seq in svmc::engine::odometer::sequences(idx.len(), len) {
+            histories += 1;
+            let names: Vec<&str> = seq.iter().map(|&i| ups[idx[i]].0).collect();
+            let dir = scratch("handler");
+            let data_path = dir.to_string_lossy().to_string();
+            let store = Arc::new(tokio::sync::RwLock::new(GraphStore::new()));
+            let app = samyama::http::server::HttpServer::new(Arc::clone(&store), 0).with_data_path(Some(data_path.clone())).router();
+            let mut restored_before = restore(&dir);
+            for (step, &i) in seq.iter().enumerate() {
+                steps += 1;
+                let (uname, bytes, _wellformed) = &ups[idx[i]];
+                let live_before = rt.block_on(async { plain_of_store(&*store.read().await) });
+                let req = axum::http::Request::builder().method("POST").uri("/api/snapshot/import").header("Content-Type", format!("multipart/form-data; boundary={BOUNDARY}")).body(axum::body::Body::from(multipart_body(bytes))).unwrap();
+                let status = match guarded(|| rt.block_on(async { app.clone().oneshot(req).await.map(|r| r.status().as_u16()) })) {
+                    Ok(Ok(s)) => s,
+                    Ok(Err(_)) => 0,
+                    Err(p) => {
+                        ctx.violation("handler:panic", format!("POST /api/snapshot/import of `{uname}` panicked: {p}"), json!({"kind": "handler", "history": names, "step": step}));
+                        break;
+                    }
+                };
+                let live_after = rt.block_on(async { plain_of_store(&*store.read().await) });
+                let r = restore(&dir);
+                let acked = status == 200;
+                *outcomes.entry(format!("{uname}:{status}:{}", if r.is_err { "restart-error" } else { "restart-ok" })).or_default() += 1;
+                let w = json!({"kind": "handler", "history": names, "step": step, "upload": uname, "status": status, "restart": r.result});
+                if r.is_err {
+                    ctx.violation(&format!("handler:restart_fails_after_{}_upload", if acked { "acknowledged" } else { "rejected" }), format!("after uploads {:?} (the last one answered {status}) a clean restart fails: {}", &names[..=step], r.result), w);
+                    break;
+                }
+                if !acked {
+                    if iso(&live_after, &live_before).is_none() {
+                        ctx.violation("handler:rejected_upload_changes_live_graph", format!("upload `{uname}` was answered {status} but the live graph changed: {} -> {}", live_before.to_json(), live_after.to_json()), w.clone());
+                    }
+                    if iso(&r.plain, &restored_before.plain).is_none() {
+                        ctx.violation("handler:rejected_upload_changes_what_a_restart_restores", format!("upload `{uname}` was answered {status}; a restart restored {} before it and {} after it", restored_before.plain.to_json(), r.plain.to_json()), w);
+                        break;
+                    }
+                } else {
+                    // acknowledged: a restart restores the new import (alone -- the recorded finding that
+                    // only the last import is kept -- or the cumulative live graph)
+                    let mut one = GraphStore::new();
+                    let alone = samyama::snapshot::import_tenant(&mut one, std::io::Cursor::new(bytes)).map(|_| plain_of_store(&one));
+                    let ok = iso(&r.plain, &live_after).is_some() || alone.as_ref().map(|a| iso(&r.plain, a).is_some()).unwrap_or(false);
+                    if !ok {
+                        ctx.violation("handler:acknowledged_upload_not_restored", format!("upload `{uname}` was answered 200; a restart restores {} (live graph {})", r.plain.to_json(), live_after.to_json()), w);
+                        break;
+                    }
+                }
+                restored_before = r;
+            }
+            let _ = std::fs::remove_dir_all(&dir);
+        }
+    }
+    (histories, steps, outcomes)
+}
+
 fn main() {
     let args: Vec<String> = std::env::args().collect();
     if args.len() >= 4 && args[1] == "--persist-worker" {
@@ -777,6 +869,14 @@ fn main() {
         ctx.cov("outcomes", json!(outcomes));
         ctx.cov("power_loss_after_acknowledgement_restoring_an_older_graph", post_ack);
         ctx.note("persist_snapshot never fsyncs the snapshot directory: a power loss after it has returned Ok can still restore the previous graph (count under power_loss_after_acknowledgement_restoring_an_older_graph). The property speaks of crashes *while* an import is being persisted, so these states are judged by the same k-1-or-k oracle and are not violations by themselves.");
+        // handler phase
+        let (hl, syms): (usize, Vec<&str>) = match ctx.tier {
+            Tier::Quick => (2, vec!["a", "b", "b-cut-in-half", "garbage"]),
+            Tier::Thorough => (3, vec!["a", "b", "c", "b-cut-in-half", "b-last-byte-missing", "garbage", "empty"]),
+        };
+        let (hh, hs, ho) = handler_phase(ctx, hl, &syms);
+        ctx.cov("handler_phase", json!({"uploads": syms, "max_history_length": hl, "histories": hh, "steps_with_clean_restart": hs, "outcomes (upload:status:restart)": ho}));
+        ctx.assume("handler phase: every sequence of uploads (well-formed snapshots and rejected ones) up to the stated length through the shipped router with a data directory; after every step a clean restart (restore_persisted_snapshots into a fresh store) must succeed, a rejected upload must leave both the live graph and what a restart restores unchanged, an acknowledged one must be what a restart restores");
         ctx.cov("operation_lists", json!(op_lists));
         if let Some(t) = trace_excerpt {
             ctx.cov("trace_excerpt", t);
@@ -796,6 +896,23 @@ fn main() {
 fn replay(ctx: &Ctx, p: &Path) {
     let doc: J = serde_json::from_str(&std::fs::read_to_string(p).expect("read replay")).expect("json");
     let w = &doc["witness"];
+    if w["kind"] == "handler" {
+        // re-run every upload sequence over the witness history's symbols up to its length
+        let hist: Vec<String> = w["history"].as_array().map(|a| a.iter().filter_map(|x| x.as_str().map(|s| s.to_string())).collect()).unwrap_or_default();
+        let all = uploads();
+        let mut syms: Vec<&str> = vec![];
+        for h in &hist {
+            if let Some(u) = all.iter().find(|u| u.0 == h.as_str()) {
+                if !syms.contains(&u.0) {
+                    syms.push(u.0);
+                }
+            }
+        }
+        println!("handler phase over uploads {syms:?}, sequences up to length {}", hist.len());
+        let (hh, hs, ho) = handler_phase(ctx, hist.len(), &syms);
+        println!("histories {hh}, steps {hs}, outcomes {ho:?}");
+        return;
+    }
     let names: Vec<&'static str> = w["history"].as_array().map(|a| a.iter().filter_map(|x| ["a", "b", "c"].into_iter().find(|n| Some(*n) == x.as_str())).collect()).unwrap_or_default();
     if names.is_empty() {
         ctx.machinery("replay: no history in witness");
